@@ -163,3 +163,30 @@ Definition ex_slave (name host : string) (poll : Z) : entry :=
 
 Definition ex_periph (name : string) : entry :=
   [("driver", JStr "mock.Driver"); ("dummy_param", JStr "x"); ("name", JStr name); ("id", JStr name); ("static", JBool false)].
+
+(* live devices: what they answer to GET /device *)
+Definition ex_attrs (name : string) (listen : bool) : jv :=
+  JObj [("name", JStr name); ("flags", JList ((if listen then [JStr "listen"] else []) ++ [JStr "expressions"]))].
+
+Definition ex_reach (e : entry) : option jv :=
+  match get "host" e with
+  | JStr h => if String.eqb h "relay.local" then Some (ex_attrs "relay" true)
+              else if String.eqb h "meter.local" then Some (ex_attrs "meter" false)
+              else if String.eqb h "sensor.local" then Some (ex_attrs "sensor" true)
+              else if String.eqb h "plain.local" then Some (ex_attrs "plain" false)
+              else None
+  | _ => None
+  end.
+
+Definition ex_live (name host : string) (poll : Z) (listen : jv) : entry :=
+  [("enabled", JBool true); ("name", JStr name); ("scheme", JStr "http"); ("host", JStr host); ("port", JNum 320); ("path", JStr "/");
+   ("admin_password_hash", JStr empty_hash); ("poll_interval", JNum poll); ("listen_enabled", listen);
+   ("last_sync", JNum 6800000000000); ("online", JBool true); ("provisioning", JList []);
+   ("attrs", match ex_reach [("host", JStr host)] with Some a => a | None => JObj [] end)].
+
+Definition ex_slaves : list entry :=
+  [ex_slave "garage" "10.0.0.1" 120;
+   ex_live "relay" "relay.local" 0 (JBool true);          (* listening *)
+   ex_live "meter" "meter.local" 120 (JBool false);       (* polled, no listen flag *)
+   ex_live "sensor" "sensor.local" 0 (JBool false);       (* neither: permanently offline, with the listen flag *)
+   ex_live "plain" "plain.local" 0 (JBool false)].        (* neither, without the listen flag *)
